@@ -273,7 +273,11 @@ def apply_prop_filter(el, ab):
         matched = True
         for subel in el:
             if subel.tag == "{urn:ietf:params:xml:ns:carddav}text-match":
-                if not apply_text_match(subel, str(prop_el)):
+                # match the property value, not the repr of the content line
+                value = prop_el.value
+                if not isinstance(value, str):
+                    value = str(value)
+                if not apply_text_match(subel, value):
                     matched = False
                     break
             elif subel.tag == "{urn:ietf:params:xml:ns:carddav}param-filter":
